@@ -98,9 +98,12 @@ def _pad_face_connections(
 
     # Detect all the axes we have to deal with during padding
     # all the axes defined in the connections + the axes of the padding width should give all axes we need to iterate over
-    pad_axes = list(
-        set(_get_all_connection_axes(connections, facedim) + list(padding_width.keys()))
+    # (taken in the order of the grid's axes: iterating a set here would make the corner
+    # values of the halo depend on the hash seed)
+    axes_to_pad = set(
+        _get_all_connection_axes(connections, facedim) + list(padding_width.keys())
     )
+    pad_axes = [axname for axname in grid.axes if axname in axes_to_pad]
 
     padding_width = {axname: padding_width.get(axname, (0, 0)) for axname in pad_axes}
 
